@@ -205,8 +205,19 @@ Definition op_ids (o : op bvec) : list N :=
   | OSaveLoad => []
   end.
 
-Definition step_wf (s : c24step) : bool :=
-  match s with C24Op o => wf_op bvec bvlen o | C24Q _ => true end.
+(* well-formed steps: rebuild() is given "the current valid (id, vector) pairs": distinct ids, one
+   non-zero dimension and, for the normalising metrics, vectors insert() would accept (non-zero norm:
+   a zero vector has no cosine) *)
+Definition step_wf (cf : config) (t : ntable) (s : c24step) : bool :=
+  match s with
+  | C24Op o =>
+      wf_op bvec bvlen o
+      && match o with
+         | ORebuild vs => negb (needs_norm (c_metric cf)) || forallb (fun e => negb (tab_tiny t (snd e))) vs
+         | _ => true
+         end
+  | C24Q _ => true
+  end.
 
 (* known-finding classes (decidable on the input): see KNOWN_FINDINGS.json *)
 Definition known_class (c : config) (steps : list c24step) : N := 0.
@@ -216,6 +227,6 @@ Definition c24_one (c : c24case) : N * (bool * bool) :=
   let universe := dedupN (flat_map (fun s => match s with C24Op o => op_ids o | C24Q _ => [] end) steps) in
   (known_class cf steps,
    (corr t (init bvec cf) steps && negb panicked,
-    negb (forallb step_wf steps) || (prop t universe (ainit bvec cf) steps && negb panicked))).
+    negb (forallb (step_wf cf t) steps) || (prop t universe (ainit bvec cf) steps && negb panicked))).
 
 Definition c24_check := run_checker c24_one.
